@@ -27,7 +27,10 @@ FHUGE = [1e308, 1.5e308]                  # finite scores whose sums overflow to
 SHAPES = [('1', {'a': [1]}, 1), ('2', {'a': [1, 2]}, 2), ('3', {'a': [1, 2, 3]}, 3), ('2x2', {'a': [1, 2], 'b': [5, 6]}, 4)]
 
 # grids that list a value twice / values equal across types (two combinations that compare equal stay two combinations)
-EXTRA_SHAPES = [('dup', {'a': [3, 3, 1]}, 3), ('eqtype', {'a': [7, 7.0], 'b': [1]}, 2), ('dup2', {'a': [2, 5, 5]}, 3)]
+EXTRA_SHAPES = [('dup', {'a': [3, 3, 1]}, 3), ('eqtype', {'a': [7, 7.0], 'b': [1]}, 2), ('dup2', {'a': [2, 5, 5]}, 3),
+                # grids beyond any per-worker block threshold, sizes that no small process count divides
+                ('big129', {'a': list(range(1, 130))}, 129), ('big143', {'a': list(range(1, 144))}, 143),
+                ('big211', {'a': list(range(1, 212))}, 211)]
 
 META = {
     'rule': 'serial leg: every assignment of a value to every (combination, repetition) cell x every mode x every shape '
@@ -316,6 +319,40 @@ def nested_score(model):
     return 100 * model.a + best['score']
 
 
+class CountModel(Core.Model):
+    """Every construction takes the next number: a repetition that is not really run is one number short."""
+    BUILT = [0]
+
+    def __init__(self, seed=None, a=0):
+        super().__init__(seed=seed)
+        ambient_logger(self)
+        CountModel.BUILT[0] += 1
+        self.index = CountModel.BUILT[0]
+        self.complete()
+
+
+def count_score(model):
+    return model.index
+
+
+def seeded_reps_case(case):
+    """A grid that fixes the model's seed (a parameter named seed) searched with several repetitions, one process: every
+    repetition builds, runs and scores its own model."""
+    reset_library()
+    CountModel.BUILT[0] = 0
+    params = {case['name']: [3, 1, 2]} if case['name'] != 'both' else {'seed': [3, 1], 'a': [5, 6]}
+    reps = case['reps']
+    best, results = Batching.grid_search(CountModel, params, count_score, repetitions=reps, mode=ScoreMode.MAX_SUM)
+    exp = [[i * reps + r + 1 for r in range(reps)] for i in range(len(results))]
+    got = [list(r['records']) for r in results]
+    if got != exp or CountModel.BUILT[0] != reps * len(results):
+        raise Violation(f'search over {params} with {reps} repetitions: the r-th repetition of the i-th combination is the '
+                        f'(i * repetitions + r + 1)-th model built', expected=exp, observed=got)
+    if best is not results[-1]:
+        raise Violation(f'search over {params}: best (MAX_SUM) is not the last combination')
+    return len(results) * reps
+
+
 def traits_case(case):
     reset_library()
     procs, oc = case['procs'], case.get('outcome')
@@ -431,6 +468,7 @@ def reused_list_case(case):
     """One ParameterList searched several times with its declaration edited in between; repeated values count."""
     reset_library()
     pl = Batching.ParameterList({'a': [3, 1, 2], 'b': [5, 6]})
+    shared = [2, 3]
     GLOBAL_TABLE.clear()
     GLOBAL_TABLE.update({(a, b): 10 * a + b for a in (1, 2, 3, 4) for b in (0, 5, 6)})
     plan = [('run', [(3, 5), (3, 6), (1, 5), (1, 6), (2, 5), (2, 6)]), ('remove', 'b'), ('run', [(3, 0), (1, 0), (2, 0)]),
@@ -438,13 +476,34 @@ def reused_list_case(case):
             # a name declared with a single value, removed, and declared again with a series of values (and back)
             ('add', ('b', 6)), ('run', [(4, 6), (1, 6), (1, 6), (4, 6)]), ('remove', 'b'), ('add', ('b', [5, 6])),
             ('run', [(4, 5), (4, 6), (1, 5), (1, 6), (1, 5), (1, 6), (4, 5), (4, 6)]),
-            ('remove', 'b'), ('add', ('b', 5)), ('run', [(4, 5), (1, 5), (1, 5), (4, 5)])]
+            ('remove', 'b'), ('add', ('b', 5)), ('run', [(4, 5), (1, 5), (1, 5), (4, 5)]),
+            # the caller keeps the list it declared and extends it in place between two searches
+            # (the declaration either follows the caller's list or keeps the values it had when declared - the same way in
+            # every search: 'run_either' lists both readings)
+            ('remove', 'a'), ('add', ('a', shared)), ('grow', 1),
+            ('run_either', ([(2, 5), (3, 5), (1, 5)], [(2, 5), (3, 5)])), ('grow', 4),
+            ('run_either', ([(2, 5), (3, 5), (1, 5), (4, 5)], [(2, 5), (3, 5)]))]
     n = 0
+    reading = None
     for what, arg in plan:
+        if what == 'run_either':
+            best, results = Batching.grid_search(GModel, pl, global_score, processes=case['procs'], mode=ScoreMode.MIN)
+            got = [(r['a'], r.get('b', 0), r['score']) for r in results]
+            exps = [[(a, b, 10 * a + b) for a, b in alt] for alt in arg]
+            n += 1
+            fits = [i for i, e in enumerate(exps) if e == got and reading in (None, i)]
+            if not fits:
+                raise Violation(f'search {n} over a ParameterList whose value list the caller extended in place: the combinations '
+                                f'evaluated follow neither the list as it is now nor the list as declared (the same reading '
+                                f'in every search; processes={case["procs"]})', expected=exps, observed=got)
+            reading = fits[0]
+            continue
         if what == 'remove':
             pl.remove_parameter(arg)
         elif what == 'add':
             pl.add_parameter(*arg)
+        elif what == 'grow':
+            shared.append(arg)
         else:
             best, results = Batching.grid_search(GModel, pl, global_score, processes=case['procs'], mode=ScoreMode.MIN)
             got = [(r['a'], r.get('b', 0), r['score']) for r in results]
@@ -634,13 +693,29 @@ def sched_cases():
                                'procs': p, 'outcome': [list(map(list, oc[0])), list(oc[1])]}
 
 
+def big_grid_cases():
+    """Grids of 129 / 143 / 211 combinations on 2 and 3 workers (default schedule); the optimum sits at the very end, in
+    the middle or at the start."""
+    for name, params, nc in EXTRA_SHAPES:
+        if not name.startswith('big'):
+            continue
+        for p in (2, 3):
+            for where in ('last', 'first', 'middle'):
+                for mode in (0, 1):
+                    flat = [((a * 37) % 101) + 10 for a in params['a']]
+                    pos = {'last': nc - 1, 'first': 0, 'middle': nc // 2}[where]
+                    flat[pos] = 0 if mode == 0 else 1000
+                    yield {'leg': 'schedule', 'shape': name, 'reps': 1, 'mode': mode, 'table': flat, 'procs': p,
+                           'outcome': None, 'cyclic': True}
+
+
 def more_workers_cases():
     """More worker processes than combinations; grids that list a value twice or hold values equal across types.  The
     scores depend on the parameters only (every repetition of a combination scores the same row, cyclically)."""
     # (constant rows: an implementation is free to spread the repetitions of one combination over several workers, and
     # the table score function counts evaluations per process)
     rows = {1: [4, 4, 4], 2: [1, 1, 1], 3: [6, 6, 6], 5: [7, 7, 7], 7: [3, 3, 3]}
-    for name, params, nc in [s for s in SHAPES if s[0] in ('2', '3')] + EXTRA_SHAPES:
+    for name, params, nc in [s for s in SHAPES if s[0] in ('2', '3')] + [s for s in EXTRA_SHAPES if not s[0].startswith('big')]:
         for reps in (2, 3):
             flat = []
             for a in params['a']:
@@ -703,14 +778,15 @@ def chunk_fn(ctx, chunk):
     cache = sched.WorkerCache()
     serial_memo = {}
     for case in chunk:
-        if case['leg'] in ('limit', 'reused_list', 'traits', 'source_dict', 'start_method', 'same_name'):
+        if case['leg'] in ('limit', 'reused_list', 'traits', 'source_dict', 'start_method', 'same_name', 'seeded_reps'):
             ctx.traces += 1
             ctx.states += 1
             ctx.transitions += 3
             try:
                 ctx.outcome(hbfs._guard({'limit': limit_case, 'reused_list': reused_list_case,
                                          'traits': traits_case, 'source_dict': source_dict_case,
-                                         'start_method': start_method_case, 'same_name': same_name_case}[case['leg']], case))
+                                         'start_method': start_method_case, 'same_name': same_name_case,
+                                         'seeded_reps': seeded_reps_case}[case['leg']], case))
             except Violation as v:
                 ctx.report(case, v)
             continue
@@ -754,10 +830,11 @@ def run(ctx):
     # cases that carry their whole story in one search first: a stale cache filled by EARLIER searches of the same
     # process makes later cases fail in a way that cannot be replayed on its own
     ser.sort(key=lambda c: c['leg'] not in ('serial_typed_rows', 'serial_mixed'))
-    sc = list(sched_cases()) + list(more_workers_cases())
+    sc = list(sched_cases()) + list(more_workers_cases()) + list(big_grid_cases())
     pr = list(pool_reuse_cases())
     lim = list(limit_cases()) + [{'leg': 'reused_list', 'procs': 1}, {'leg': 'source_dict', 'procs': 1}] + list(traits_cases())
     lim += [{'leg': 'same_name', 'order': o} for o in ([1, 2], [2, 1], [1, 2, 1], [2, 2])]
+    lim += [{'leg': 'seeded_reps', 'name': nm, 'reps': r} for nm in ('seed', 'a', 'both') for r in (2, 3)]
     if not ctx.small:
         lim += [{'leg': 'start_method', 'method': 'spawn', 'limit': 3}, {'leg': 'start_method', 'method': 'forkserver', 'limit': 4}]
     first = [c for c in ser if c['leg'] == 'serial_typed_rows'] + [c for c in ser if c['leg'] == 'serial_mixed']
@@ -785,6 +862,9 @@ def replay(case):
         return
     if case['leg'] == 'same_name':
         hbfs._guard(same_name_case, case)
+        return
+    if case['leg'] == 'seeded_reps':
+        hbfs._guard(seeded_reps_case, case)
         return
     if case['leg'] == 'start_method':
         hbfs._guard(start_method_case, case)
